@@ -255,6 +255,52 @@ def _option_eq_switch(prog, f, o, field, const_pred):
             if const_pred(val.show()):
                 tt, tf = be
                 return sb, (tf if neg else tt), (tt if neg else tf)
+    # `matches!(cfg.<field>, Some(V))` / `let flag = match cfg.<field> { Some(V) => true, _ => false }`: a bool local that is
+    # `true` exactly below the V edge of the (nested) switch over the field
+    wanted_edges = []
+    for isb, ist in switches(f):
+        ve, rv = variant_edges(f, isb)
+        if ve is not None:
+            names = [p_.get("n") for p_ in f.canon_place(rv["place"])["p"] if isinstance(p_, dict)]
+            if field in names and set(ve) != {"Some", "None"}:
+                for v, tg in ve.items():
+                    if const_pred("Option::Some(%s::%s)" % (rv["ty"].split("<")[0], v)) and list(ve.values()).count(tg) == 1:
+                        wanted_edges.append((isb, tg))
+        else:
+            be = bool_edges(f, isb)
+            pl = ist["discr"].get("copy") or ist["discr"].get("move")
+            if be and pl is not None:
+                cp = f.canon_place(pl)
+                names = [p_.get("n") for p_ in cp["p"] if isinstance(p_, dict)]
+                if field in names and any(isinstance(p_, dict) and p_.get("v") == "Some" or p_ == "Some" or (isinstance(p_, dict) and "Some" in str(p_)) for p_ in cp["p"]):
+                    if const_pred("Option::Some(true)"):
+                        wanted_edges.append((isb, be[0]))
+    if len(wanted_edges) == 1:
+        isb, T = wanted_edges[0]
+        via_t = set(f.reachable(T))
+        without_t = set(f.reachable(0, removed_edges=[(isb, T)]))
+        for sb, st in switches(f):
+            be = bool_edges(f, sb)
+            pl = st["discr"].get("copy") or st["discr"].get("move")
+            if be is None or pl is None or pl["p"]:
+                continue
+            l = pl["l"]
+            # chase one copy
+            d1 = f.single_def(l)
+            if d1 and d1[2] == "assign" and d1[3]["k"] == "use" and ("copy" in d1[3]["op"] or "move" in d1[3]["op"]):
+                src = d1[3]["op"].get("copy") or d1[3]["op"].get("move")
+                if not src["p"]:
+                    l = src["l"]
+            defs = [d for d in f.defs.get(l, []) if d[2] == "assign" and d[3]["k"] == "use" and "const" in d[3]["op"] and d[3]["op"]["const"]["ty"] == "bool"]
+            if len(defs) < 2 or len(defs) != len(f.defs.get(l, [])):
+                continue
+            vals = {}
+            for d in defs:
+                v = d[3]["op"]["const"].get("val", {})
+                vals.setdefault(bool(int(v.get("bits", 0))), []).append(d[0])
+            if True in vals and False in vals and all(b in via_t and b not in without_t for b in vals[True]) and all(b in without_t for b in vals[False]) \
+                    and not any(b in set(f.reachable(T)) - without_t for b in vals[False]):
+                return sb, be[0], be[1]
     return None
 
 
